@@ -1,11 +1,12 @@
 #!/bin/bash
-# usage: tools/runall.sh [quick|thorough]  - runs every registered check, prints one line per check
+# usage: tools/runall.sh [quick|thorough] [skip-regexp]  - runs every registered check, prints one line per check
 cd "$(dirname "$0")/.."
-tier=${1:-quick}
+tier=${1:-quick}; skip=${2:-^$}
 for id in $(python3 -c "import json;print(' '.join(c['property_id'] for c in json.load(open('MANIFEST.json'))['checks']))"); do
+  if echo "$id" | grep -Eq "$skip"; then continue; fi
   s=$(date +%s)
   out=$(./check $id $tier 2>&1)
   rc=$?
   e=$(date +%s)
-  echo "$id rc=$rc $((e-s))s $(echo "$out" | grep -c '^KNOWN-FINDING') known $(echo "$out" | grep -E '^(VIOLATION|INCONCLUSIVE)' | head -2 | cut -c1-160)"
+  echo "$id rc=$rc $((e-s))s $(echo "$out" | grep -c '^KNOWN-FINDING') known $(echo "$out" | grep -E '^(VIOLATION|INCONCLUSIVE)' | head -2 | cut -c1-200)"
 done
